@@ -1,0 +1,103 @@
+//go:build verif
+
+package mvp8_0
+
+import "github.com/teivah/majorana/proc/comp"
+
+// VerifSnapshot exports the coherence state for the verification harness
+// (build tag verif). It copies references only and changes nothing.
+func (m *CPU) VerifSnapshot() comp.VerifSnapshot {
+	s := comp.VerifSnapshot{LineSize: l1DCacheLineSize}
+	for _, cc := range m.cacheControllers {
+		c := comp.VerifCore{ID: cc.id, ReadBusy: !cc.read.IsStart(), WriteBusy: !cc.write.IsStart(), SnoopBusy: !cc.snoop.IsStart()}
+		for _, l := range cc.l1d.Lines() {
+			c.L1 = append(c.L1, comp.VerifLine{Base: int32(l.Boundary[0]), Data: l.Data})
+		}
+		for k := range cc.l1RLockSems {
+			c.RLocked = append(c.RLocked, int32(k))
+		}
+		for k := range cc.l1LockSems {
+			c.WLocked = append(c.WLocked, int32(k))
+		}
+		s.Cores = append(s.Cores, c)
+	}
+	for e, st := range m.msi.states {
+		s.States = append(s.States, comp.VerifState{Core: e.id, Base: int32(e.alignedAddr), State: st})
+	}
+	for a, sem := range m.msi.pendings {
+		r, w := sem.VerifCounters()
+		s.Sems = append(s.Sems, comp.VerifSem{Base: int32(a), Read: r, Write: w})
+	}
+	for req, info := range m.msi.commands {
+		s.Commands = append(s.Commands, comp.VerifCommand{Core: req.id, Base: int32(req.alignedAddr), Request: req.request, Done: info.doneFlag})
+	}
+	s.L3LineSize = l3CacheLineSize
+	for _, l := range m.l3.Lines() {
+		s.L3 = append(s.L3, comp.VerifLine{Base: int32(l.Boundary[0]), Data: l.Data})
+	}
+	for a, mu := range m.msi.l3Lock {
+		if mu.TryLock() {
+			mu.Unlock()
+		} else {
+			s.L3Locked = append(s.L3Locked, int32(a))
+		}
+	}
+	return s
+}
+
+// VerifRig drives the cache controllers and the directory without the
+// pipeline: the harness issues read/write requests directly, cycle by cycle,
+// the way the execute units do.
+type VerifRig struct {
+	m *CPU
+}
+
+// NewVerifRig builds the controllers, the directory and the memory.
+func NewVerifRig(cores, memBytes int) *VerifRig {
+	return &VerifRig{m: NewCPU(false, memBytes, cores)}
+}
+
+// Memory is the main memory.
+func (r *VerifRig) Memory() []int8 { return r.m.ctx.Memory }
+
+// Snoop cycles the snoop coroutine of every controller (done first in a cycle).
+func (r *VerifRig) Snoop() {
+	for _, cc := range r.m.cacheControllers {
+		cc.snoop.Cycle(struct{}{})
+	}
+}
+
+// Read cycles the read coroutine of a core with the same request until done.
+func (r *VerifRig) Read(core int, addrs []int32, cycle int) ([]int8, bool) {
+	resp := r.m.cacheControllers[core].read.Cycle(ccReadReq{cycle, addrs})
+	return resp.data, resp.done
+}
+
+// Write cycles the write coroutine of a core with the same request until done.
+func (r *VerifRig) Write(core int, addrs []int32, data []int8, cycle int) bool {
+	return r.m.cacheControllers[core].write.Cycle(ccWriteReq{cycle, addrs, data}).done
+}
+
+// Flush is the pipeline's flush of one core's controller.
+func (r *VerifRig) Flush(core int) { r.m.cacheControllers[core].flush() }
+
+// Quiescent reports that no controller has anything in progress.
+func (r *VerifRig) Quiescent() bool {
+	for _, cc := range r.m.cacheControllers {
+		if !cc.isEmpty() {
+			return false
+		}
+	}
+	return true
+}
+
+// WriteBack performs the end-of-run export of the modified lines.
+func (r *VerifRig) WriteBack() {
+	for _, cc := range r.m.cacheControllers {
+		cc.writeBack()
+	}
+	r.m.l3WriteBack()
+}
+
+// Snapshot exports the coherence state.
+func (r *VerifRig) Snapshot() comp.VerifSnapshot { return r.m.VerifSnapshot() }
